@@ -1,9 +1,12 @@
 #!/bin/bash
-# usage: tools/mutant_batch.sh <PROP> [extra props comma separated]   -- evaluates /tmp/mut/<PROP>/out/m*/ one after the other
+# usage: [RESULTS=dir] [MUTROOT=dir] tools/mutant_batch.sh <PROP> [extra props comma separated]
+# evaluates $MUTROOT/<PROP>/out/m*/ one after the other with tools/try_mutant.py
 P=$1; EXTRA=${2:+,$2}
-for d in /tmp/mut/$P/out/m*/; do
+RESULTS=${RESULTS:-/tmp/mt_results}; MUTROOT=${MUTROOT:-/tmp/mut}
+mkdir -p $RESULTS
+for d in $MUTROOT/$P/out/m*/; do
   k=$(basename $d)
   [ -f $d/patch.diff ] || continue
-  python3 /verif/tools/try_mutant.py $d --props $P$EXTRA --name ${P}_$k > /tmp/mt_results/${P}_$k.json 2>&1
+  python3 /verif/tools/try_mutant.py $d --props $P$EXTRA --name ${P}_$k > $RESULTS/${P}_$k.json 2>&1
 done
 echo "batch $P done"
